@@ -2527,7 +2527,7 @@ pub fn hostile_case(tier: &str, seed: u64, case: u64) -> CaseResult {
 // Dandelion stem to its one outbound peer). (C03, C14)
 
 /// The frame a decoded message re-encodes to (what the sending node wrote).
-fn reencode(m: Message, v: ProtocolVersion) -> Option<(String, Vec<u8>)> {
+pub fn reencode(m: Message, v: ProtocolVersion) -> Option<(String, Vec<u8>)> {
 	let d = describe(&m).split('(').next().unwrap_or("").to_string();
 	let f = match m {
 		Message::Ping(_) | Message::Pong(_) | Message::Unknown(_) | Message::Attachment(_, _) => return None,
